@@ -159,14 +159,29 @@ def run(R):
     # ------------------------------------------------------------------ EXH.1
     df = ctx(R, 'ndn.client_conf.default_face')
     dom = StrDomain(['unix', 'tcp', 'tcp4', 'tcp6', 'udp', 'udp4', 'udp6'],
-                    probes=['tcps', 'tcp5', 'tcp-tls', 'udplite', 'udp4+dtls', 'unixs', 'xunix', 'ws', 'http', ''])
+                    probes=['tcps', 'tcp5', 'tcp-tls', 'udplite', 'udp4+dtls', 'unixs', 'xunix', 'ws', 'http', '', 'tcp46', 'tcp44', 'udp64', 'unix6', 'tcp4 '])
     want = {'unix': 'UnixFace', 'tcp': 'TcpFace', 'tcp4': 'TcpFace', 'tcp6': 'TcpFace', 'udp': 'UdpFace', 'udp4': 'UdpFace', 'udp6': 'UdpFace'}
     var = 'scheme'
     srcs = [v for n in df.cfg.nodes for (nm, v) in df.cfg.defs_of(n) if nm == var]
-    if not (len(srcs) == 1 and isinstance(srcs[0], ast.AST) and ast.unparse(srcs[0]).endswith('.scheme')):
+    # `scheme = <url>.scheme`, possibly passed through pure str methods with constant arguments (folded per probe value)
+    PURE = {'lower', 'upper', 'casefold', 'strip', 'rstrip', 'lstrip', 'removesuffix', 'removeprefix'}
+    chain = []
+    e0 = srcs[0] if len(srcs) == 1 and isinstance(srcs[0], ast.AST) else None
+    while isinstance(e0, ast.Call) and isinstance(e0.func, ast.Attribute) and e0.func.attr in PURE and not e0.keywords \
+            and all(isinstance(a, ast.Constant) and isinstance(a.value, str) for a in e0.args):
+        chain.insert(0, (e0.func.attr, [a.value for a in e0.args]))
+        e0 = e0.func.value
+    if not (e0 is not None and ast.unparse(e0).endswith('.scheme')):
         raise AnalysisError('default_face: cannot find `scheme = urlparse(face).scheme`')
+
+    def transformed(v_):
+        if v_ == dom.OTHER:
+            return v_
+        for (meth_, args_) in chain:
+            v_ = getattr(v_, meth_)(*args_)
+        return v_
     for v in dom.values:
-        removed = pruned_edges(df, var, dom, v)
+        removed = pruned_edges(df, var, dom, transformed(v))
         reach = df.cfg.reachable(removed_edges=removed, follow_exc=False)
         outs = set()
         for r in returns(df):
